@@ -217,11 +217,11 @@ Qed.
 
 (** * The parser on valid wire forms *)
 
-(** Every valid message - except an error response whose id is null, and (under
-    the fallback back end only) a result response whose result is null - is
-    accepted by [parse_message], and the parsed object has exactly the view of
-    the wire form: same kind, id with its JSON type, method, params, result,
-    error.  Payloads are arbitrary [json] terms. *)
+(** Every valid message - except, under the fallback back end only, a result
+    response whose result is null - is accepted by [parse_message], and the
+    parsed object has exactly the view of the wire form: same kind, id with its
+    JSON type (or no id), method, params, result, error.  Payloads are arbitrary
+    [json] terms. *)
 Lemma val_opt_id_rid : forall i, val_opt_id (json_of_rid i) = Some (Some i).
 Proof. intros []; reflexivity. Qed.
 
@@ -230,11 +230,10 @@ Proof. intros []; reflexivity. Qed.
 
 Lemma parse_valid : forall fb m k,
   classify (JObj m) = inr k ->
-  (k = KErr -> field k_id m <> JNull) ->
   (fb = true -> k = KRes -> field k_result m <> JNull) ->
   exists e, parse_message fb (JObj m) = Some e /\ view_of_msg e = view_of_wire (JObj m).
 Proof.
-  intros fb m k Hc Hnullid Hnullres.
+  intros fb m k Hc Hnullres.
   unfold view_of_wire. rewrite Hc.
   apply classify_sound in Hc.
   inversion Hc as [m0 meth i Hver Hmeth Hid Hpar Hres Herr
@@ -268,7 +267,7 @@ Proof.
     rewrite Hver, Hmeth, Hid, Hres, Herr, Hpar. simpl.
     unfold has_key. rewrite Hcode, Hmsg. simpl.
     destruct Hi as [->|[r ->]].
-    + exfalso. apply (Hnullid eq_refl). unfold field. rewrite Hid. reflexivity.
+    + simpl. eexists; split; reflexivity.
     + rewrite val_opt_id_rid, rid_of_json_of_rid. simpl. eexists; split; reflexivity.
 Qed.
 
@@ -346,15 +345,14 @@ Lemma emitted_ok_of_wire : forall fb e intent w,
   dump_exclude_none e = JObj w ->
   classify (JObj w) = inr (v_kind intent) ->
   view_of_wire (JObj w) = Some intent ->
-  (v_kind intent = KErr -> field k_id w <> JNull) ->
   (fb = true -> v_kind intent = KRes -> field k_result w <> JNull) ->
   emitted_ok fb e intent.
 Proof.
-  intros fb e intent w Hd Hc Hv Hid Hres. unfold emitted_ok. rewrite Hd.
+  intros fb e intent w Hd Hc Hv Hres. unfold emitted_ok. rewrite Hd.
   split; [unfold valid_jsonrpc; rewrite Hc; reflexivity|].
   split; [exact Hv|].
   split.
-  - destruct (parse_valid fb w (v_kind intent) Hc Hid Hres) as [e' [Hp Hvw]].
+  - destruct (parse_valid fb w (v_kind intent) Hc Hres) as [e' [Hp Hvw]].
     exists e'. split; [exact Hp|]. split.
     + exists intent. split; [exact Hv|]. rewrite Hvw. exact Hv.
     + rewrite Hvw. exact Hv.
@@ -368,7 +366,6 @@ Ltac close_emitted :=
   [ rewrite dump_is_filter; reflexivity
   | reflexivity
   | reflexivity
-  | simpl; try discriminate; intros; discriminate
   | simpl; try discriminate; intros; discriminate ].
 
 Lemma create_request_ok : forall fb meth params i,
@@ -512,25 +509,19 @@ Lemma batch_rejection_valid : forall i msg data,
   classify (batch_rejection_error i msg data) = inr KErr.
 Proof. intros [[z|s]|] msg data; reflexivity. Qed.
 
-(** with an id it round-trips ... *)
-Lemma batch_rejection_roundtrip_with_id : forall fb i msg data,
-  exists e, parse_message fb (batch_rejection_error (Some i) msg data) = Some e
-            /\ Spec_roundtrip (batch_rejection_error (Some i) msg data) (view_of_msg e).
+(** it round-trips with AND without an id (the default, and what the stdio
+    client sends, is a null id) *)
+Lemma batch_rejection_roundtrip : forall fb i msg data,
+  exists e, parse_message fb (batch_rejection_error i msg data) = Some e
+            /\ Spec_roundtrip (batch_rejection_error i msg data) (view_of_msg e).
 Proof.
   intros fb i msg data. unfold batch_rejection_error.
   match goal with |- context [parse_message fb (JObj ?w)] =>
     destruct (parse_valid fb w KErr) as [e [Hp Hv]] end.
-  - destruct i; reflexivity.
-  - intros _. destruct i; simpl; discriminate.
+  - destruct i as [[z|s]|]; reflexivity.
   - intros _ H. discriminate.
-  - exists e. split; [exact Hp|]. rewrite Hv. destruct i; eexists; split; reflexivity.
+  - exists e. split; [exact Hp|]. rewrite Hv. destruct i as [[z|s]|]; eexists; split; reflexivity.
 Qed.
-
-(** ... without one (the default, and what the stdio client sends) the parser
-    accepts it as the unified class with neither id nor method: no kind. *)
-Lemma batch_rejection_null_id_loses_kind : forall fb msg data,
-  exists e, parse_message fb (batch_rejection_error None msg data) = Some e /\ view_of_msg e = None.
-Proof. intros fb msg data. eexists. split; reflexivity. Qed.
 
 (** * The facets of [every_constructor_ok], one per sentence of the property *)
 
@@ -566,28 +557,22 @@ Proof.
   intros e v H. apply H.
 Qed.
 
-(** * Full-strength parser statement, its refutation and the true restriction *)
+(** * Full-strength parser statement, its refutation and the true restrictions *)
 
 Definition parser_roundtrips_every_valid_message : Prop :=
   forall fb m k, classify (JObj m) = inr k ->
   exists e, parse_message fb (JObj m) = Some e /\ view_of_msg e = view_of_wire (JObj m).
 
+(** the fallback back end refuses a response whose result is null (valid
+    JSON-RPC; never built by the constructors) *)
 Lemma parser_roundtrips_every_valid_message_refuted : ~ parser_roundtrips_every_valid_message.
 Proof.
   intro H.
-  destruct (H false [(k_jsonrpc, JStr v2); (k_id, JNull);
-                     (k_error, JObj [(k_code, JInt (-32600)); (k_message, JStr [])])] KErr eq_refl)
-    as [e [Hp Hv]].
-  vm_compute in Hp. inversion Hp; subst. vm_compute in Hv. discriminate.
+  destruct (H true [(k_jsonrpc, JStr v2); (k_id, JInt 1); (k_result, JNull)] KRes eq_refl) as [e [Hp _]].
+  vm_compute in Hp. discriminate.
 Qed.
 
-Definition every_batch_rejection_roundtrips : Prop :=
-  forall fb i msg data,
-  exists e, parse_message fb (batch_rejection_error i msg data) = Some e
-            /\ Spec_roundtrip (batch_rejection_error i msg data) (view_of_msg e).
-
-Lemma every_batch_rejection_roundtrips_refuted : ~ every_batch_rejection_roundtrips.
-Proof.
-  intro H. destruct (H false None [] JNull) as [e [Hp [v [Hv Hm]]]].
-  vm_compute in Hp. inversion Hp; subst. vm_compute in Hm. discriminate.
-Qed.
+Lemma parse_valid_pydantic : forall m k,
+  classify (JObj m) = inr k ->
+  exists e, parse_message false (JObj m) = Some e /\ view_of_msg e = view_of_wire (JObj m).
+Proof. intros m k H. apply (parse_valid false m k H). intro; discriminate. Qed.
